@@ -21,7 +21,7 @@ def families(seed, n):
         lb = pre.endswith(("/", "**")) or pre == ""
         rb = post.startswith(("/", "**")) or post == ""
         edge = r.random() < 0.3
-        TREE_EDGE = ["**/b", "a/**", "<**/b:1,2>", "<a/**:1,2>", "{**/b,c}", "{a/**,c}", "<**/b:2>", "<a/**/:1,2>", "a/**/b", "<<**/b:1,2>:1,2>", "x<**/b:1,2>", "<a/**:1,2>y", "**/<b:1,2>"]
+        TREE_EDGE = ["/**", "/**/b", "**/b", "a/**", "<**/b:1,2>", "<a/**:1,2>", "{**/b,c}", "{a/**,c}", "<**/b:2>", "<a/**/:1,2>", "a/**/b", "<<**/b:1,2>:1,2>", "x<**/b:1,2>", "<a/**:1,2>y", "**/<b:1,2>"]
         tree_edge = r.random() < 0.22
         def branch():
             if tree_edge and r.random() < 0.7:
